@@ -2,9 +2,11 @@
 (* Bounded model for C16 (+ the report of every history for C19): a line of three amplified spans per direction      *)
 (* (a1 a2 a3 forward, b3 b2 b1 reverse; OMS k = span k) and a pool of five request classes:                          *)
 (*   dense    a dense comb (load +2 dB over the design reference) on spans 1-2, forced mode, free slot             *)
-(*   sat      saturating power (+4 dB) on spans 1-3, bidirectional, automatic mode, free slot                       *)
+(*   sat      saturating power (+4 dB) on spans 1-3, bidirectional, automatic mode over a type whose first explored  *)
+(*            mode fails BECAUSE OF its impairment penalty and whose second mode defines no penalty; free slot       *)
 (*   nopath   no route satisfies its STRICT include constraint  (blocked before propagation)                        *)
-(*   loose    the same request with the constraint LOOSE: served on the unconstrained route                         *)
+(*   loose    the same request with the constraint LOOSE: served on the unconstrained route (forced penalised mode:    *)
+(*            its receiver - the one dense and slot also end on - then holds penalties)                             *)
 (*   badmode  bidirectional, automatic mode selection, no feasible mode (NO_FEASIBLE_MODE; the reverse check of the   *)
 (*            last explored mode fails too and must not rewrite the reason)                                          *)
 (*   slot     user-fixed slot at the bottom of the band on span 2: fails in spectrum assignment whenever an earlier   *)
@@ -16,26 +18,29 @@ MCClasses == {"dense", "sat", "nopath", "loose", "badmode", "slot"}
 MCAmps    == {"a1", "a2", "a3", "b1", "b2", "b3"}
 MCOms     == {1, 2, 3}
 MCDesign  == [a \in MCAmps |-> [gain |-> 20, pmax |-> 21]]
-MCModes   == <<[name |-> "m3", thr |-> 29000000], [name |-> "m2", thr |-> 24000000], [name |-> "m1", thr |-> 20000000]>>
+MCRcvs    == {"A", "B", "C"}
+\* m2p carries an impairment penalty of 3 dB on these paths; the other modes define no penalty at all
+MCModes   == <<[name |-> "m3", thr |-> 29000000, pen |-> NONE], [name |-> "m2p", thr |-> 22000000, pen |-> 3000000],
+               [name |-> "m2", thr |-> 24000000, pen |-> NONE], [name |-> "m1", thr |-> 20000000, pen |-> NONE]>>
 Free(m)   == [n |-> NONE, m |-> m]
-R(short, rshort, include, hop, oms, load, nch, mode, modes, slot, bidir, bw, type) ==
-    [short |-> short, rshort |-> rshort, include |-> include, hop |-> hop, via |-> <<>>, rvia |-> <<>>, oms |-> oms,
+R(short, rshort, src, dst, include, hop, oms, load, nch, mode, modes, slot, bidir, bw, type) ==
+    [short |-> short, rshort |-> rshort, src |-> src, dst |-> dst, include |-> include, hop |-> hop, via |-> <<>>, rvia |-> <<>>, oms |-> oms,
      load |-> load, nch |-> nch, mode |-> mode, modes |-> modes, slot |-> slot, bidir |-> bidir, bw |-> bw, type |-> type]
 MCReq ==
   [c \in MCClasses |->
-     CASE c = "dense"   -> R(<<"a1", "a2">>, <<"b2", "b1">>, <<>>, "", {1, 2}, 2, 4, "m2", {"m1", "m2", "m3"}, Free(2),
+     CASE c = "dense"   -> R(<<"a1", "a2">>, <<"b2", "b1">>, "A", "B", <<>>, "", {1, 2}, 2, 4, "m2", {"m1", "m2", "m3"}, Free(2),
                              FALSE, 10000, "T1")
-       [] c = "sat"     -> R(<<"a1", "a2", "a3">>, <<"b3", "b2", "b1">>, <<>>, "", {1, 2, 3}, 4, 5, "", {"m1", "m2", "m3"},
+       [] c = "sat"     -> R(<<"a1", "a2", "a3">>, <<"b3", "b2", "b1">>, "A", "C", <<>>, "", {1, 2, 3}, 4, 5, "", {"m2p", "m1"},
                              Free(2), TRUE, 20000, "T2")
        \* nopath and loose: same ends, same include list (no route crosses it), they differ in the hop type only
-       [] c = "nopath"  -> R(<<"a1", "a2">>, <<"b2", "b1">>, <<"b3">>, "STRICT", {1, 2}, 0, 3, "m1", {"m1", "m2", "m3"},
+       [] c = "nopath"  -> R(<<"a1", "a2">>, <<"b2", "b1">>, "A", "B", <<"b3">>, "STRICT", {1, 2}, 0, 3, "m2p", {"m2p", "m1"},
                              Free(1), FALSE, 10000, "T1")
-       [] c = "loose"   -> R(<<"a1", "a2">>, <<"b2", "b1">>, <<"b3">>, "LOOSE", {1, 2}, 0, 3, "m1", {"m1", "m2", "m3"},
+       [] c = "loose"   -> R(<<"a1", "a2">>, <<"b2", "b1">>, "A", "B", <<"b3">>, "LOOSE", {1, 2}, 0, 3, "m2p", {"m2p", "m1"},
                              Free(1), FALSE, 10000, "T1")
        \* badmode: bidirectional, automatic selection, no mode of its type is feasible; the reverse check fails as well
-       [] c = "badmode" -> R(<<"a1", "a2", "a3">>, <<"b3", "b2", "b1">>, <<>>, "", {1, 2, 3}, 0, 2, "", {"m3"}, Free(1),
+       [] c = "badmode" -> R(<<"a1", "a2", "a3">>, <<"b3", "b2", "b1">>, "A", "C", <<>>, "", {1, 2, 3}, 0, 2, "", {"m3"}, Free(1),
                              TRUE, 10000, "T3")
-       [] c = "slot"    -> R(<<"a2">>, <<"b2">>, <<>>, "", {2}, 0, 3, "m1", {"m1", "m2", "m3"}, [n |-> 0, m |-> 2],
+       [] c = "slot"    -> R(<<"a2">>, <<"b2">>, "C", "B", <<>>, "", {2}, 0, 3, "m1", {"m1", "m2", "m3"}, [n |-> 0, m |-> 2],
                              FALSE, 10000, "T1")]
 
 \* B2 emission: one line per non-empty history (before the report): the order and, per request, the model's verdict
